@@ -33,7 +33,9 @@ def cases(draw):
     script = draw(st.lists(st.one_of(ordinary, ordinary, special), min_size=3, max_size=24))
     return {"p": p, "verbose": draw(st.booleans()), "folder": draw(st.booleans()), "bs": draw(st.integers(1, 3)),
             "script": script, "calls": draw(st.lists(st.integers(1, 5), min_size=1, max_size=4)),
-            "seed": draw(st.integers(0, 1000))}
+            "seed": draw(st.integers(0, 1000)),
+            # with a saving folder: carry on from the checkpoint (a restored calibrator) before some of the calls
+            "restore_before": draw(st.lists(st.integers(1, 3), max_size=2, unique=True))}
 
 
 def verdict(m, p):
@@ -55,7 +57,9 @@ def run_one(case, verbose, folder):
     cal = calib.build(cfg, loss=ScriptedLoss(case["script"]), verbose=verbose, saving_folder=folder,
                       convergence_precision=case["p"])
     trace = []
-    for n in case["calls"]:
+    for ci, n in enumerate(case["calls"]):
+        if folder and ci in case.get("restore_before", []) and cal.current_batch_index > 0:
+            cal = Calibrator.restore_from_checkpoint(folder, models.get("poly", 1))
         before = cal.current_batch_index
         cal.calibrate(n)
         trace.append((cal.current_batch_index - before, cal.current_batch_index, cal.n_sampled_params, len(cal.losses_samp)))
@@ -91,7 +95,8 @@ def check_stop(ctx: Ctx, case):
             break
     ctx.count(sub, case, (stopped_early or later) and not amb, [f"p={'None' if p is None else ('0-4' if p <= 4 else '5-12')}",
                                                                   "verbose" if case["verbose"] else "quiet",
-                                                                  "folder" if case["folder"] else "nofolder"])
+                                                                  "folder" if case["folder"] else "nofolder"] +
+              (["restored-between-calls"] if case["folder"] and case.get("restore_before") else []))
     if amb:
         ctx.exclude("running minimum within 1e-12 (relative) of the rounding boundary")
         return
